@@ -9,7 +9,8 @@ np.histogramdd(block, bins=edges) per row-block of the sample        `histddBloc
 stacked (n_chunks, *nbins) array, `mapped.sum(axis=0)`               `sumVecs` / `histddMerge`
 sequence-of-arrays sample: "All coordinate arrays must be chunked
 identically" (ValueError), block i of every coordinate fused         `histogram2d` (`zipRows` per block)
-Values are `Nat` (order-preservingly interned by the harness). Weights / density are validated against NumPy.
+weights of the 1-d histogram, exact (`Int`)                           `histBlockW`, `histMergeW`
+Values are `Nat` (order-preservingly interned by the harness). Float weights / density are validated against NumPy.
 Import-free (linked into the native driver).
 -/
 namespace Dask.Counting
@@ -41,6 +42,22 @@ def sumVecs (zero : List Nat) (vs : List (List Nat)) : List Nat := vs.foldr addV
 /-- `da.histogramdd(sample, bins=edges)` for a sample chunked along the rows -/
 def histddMerge (edges : List (List Nat)) (blocks : List (List (List Nat))) : List Nat :=
   sumVecs ((cells (nbinsOf edges)).map (fun _ => 0)) (blocks.map (histddBlock edges))
+
+/-! ### weighted 1-d histogram (exact weights) -/
+
+/-- the total weight of the elements satisfying `p` -/
+def wsumP (p : Nat → Bool) (xs : List Nat) (ws : List Int) : Int :=
+  isum ((xs.zip ws).filterMap (fun q => if p q.1 then some q.2 else none))
+
+/-- `np.histogram(xs, bins=edges, weights=ws)[0]` -/
+def histBlockW (edges : List Nat) (xs : List Nat) (ws : List Int) : List Int :=
+  (List.range (edges.length - 1)).map (fun i => wsumP (inBin edges i) xs ws)
+
+def addVecI (a b : List Int) : List Int := List.zipWith (· + ·) a b
+
+/-- `da.histogram(x, bins=edges, weights=w)`: `_block_hist` per chunk (weights chunked like `x`), summed over the chunks -/
+def histMergeW (edges : List Nat) (blocks : List (List Nat × List Int)) : List Int :=
+  (blocks.map (fun b => histBlockW edges b.1 b.2)).foldr addVecI ((List.range (edges.length - 1)).map (fun _ => 0))
 
 /-- the rows `(x_k, y_k)` of one block of the two coordinate arrays -/
 def zipRows (x y : List Nat) : List (List Nat) := List.zipWith (fun a b => [a, b]) x y
